@@ -246,8 +246,14 @@ theorem nodup_removeConfig {l : List Config} (ch : Chain) (p : Path) (h : (l.map
     ((removeConfig l ch p).map cid).Nodup :=
   h.sublist ((removeConfig_sublist l ch p).map cid)
 
-/-- all records have pairwise distinct (chain, path) identities -/
-def CfgOK (s : State) : Prop := ∀ n d, getName s n = some d → (d.configs.map cid).Nodup
+/-- a record list is well formed: pairwise distinct (chain, path) identities, and host-chain records
+    carry the host bech32 prefix (checked by `UpdateResolveAddress` before every write) -/
+def CfgWF (l : List Config) : Prop := (l.map cid).Nodup ∧ ∀ c ∈ l, c.chain = 0 → c.value.hrp = 0
+
+theorem cfgWF_nil : CfgWF [] := ⟨by simp, by simp⟩
+
+/-- all records of all names are well formed -/
+def CfgOK (s : State) : Prop := ∀ n d, getName s n = some d → CfgWF d.configs
 
 theorem eq_of_nodup_map {α β : Type} (f : α → β) {l : List α} (h : (l.map f).Nodup) {x y : α} (hx : x ∈ l) (hy : y ∈ l)
     (e : f x = f y) : x = y := by
@@ -272,7 +278,7 @@ theorem cfgUniq_of_nodup {d : DymName} (h : (d.configs.map cid).Nodup) : CfgUniq
 theorem exec_cfgOK {s s' : State} {op : Op} (hI : Inv s) (hC : CfgOK s) (h : exec s op = .ok s') : CfgOK s' := by
   intro n d' hd'
   cases hn : getName s n with
-  | none => rw [name_created h hn hd']; simp
+  | none => rw [name_created h hn hd']; exact cfgWF_nil
   | some d =>
     have hd0 := hC n d hn
     obtain ⟨d'', hd'', hc⟩ := name_change hI h hn
@@ -281,21 +287,24 @@ theorem exec_cfgOK {s s' : State} {op : Op} (hI : Inv s) (hC : CfgOK s) (h : exe
     · exact hd0
     · cases hc with
       | extend dur pay c he => exact hd0
-      | renew dur pay c he => simp
-      | takeOver a dur pay c hna he hg => simp
-      | transfer b he hso hb => simp [cleared]
+      | renew dur pay c he => exact cfgWF_nil
+      | takeOver a dur pay c hna he hg => exact cfgWF_nil
+      | transfer b he hso hb => exact cfgWF_nil
       | setController c he => exact hd0
       | updateResolve ch e p v cfgs he hcf =>
-        rcases hcf with ⟨x, rfl⟩ | rfl
-        · exact nodup_upsertConfig _ hd0
-        · exact nodup_removeConfig _ _ hd0
+        rcases hcf with ⟨x, rfl, hx⟩ | rfl
+        · refine ⟨nodup_upsertConfig _ hd0.1, fun c hc h0 => ?_⟩
+          rcases mem_upsertConfig hc with rfl | hc
+          · exact hx h0
+          · exact hd0.2 c hc h0
+        · exact ⟨nodup_removeConfig _ _ hd0.1, fun c hc h0 => hd0.2 c ((removeConfig_sublist _ _ _).subset hc) h0⟩
       | updateDetails c cl cfgs contact he hcf =>
         rcases hcf with rfl | rfl
-        · simp
+        · exact cfgWF_nil
         · exact hd0
-      | purchase a offer so hso hsel hse he hna => simp [cleared]
-      | complete a so b hso hsel hb he ha => simp [cleared]
-      | accept pfx id m bo hg hna hn he hso hb => simp [cleared]
+      | purchase a offer so hso hsel hse he hna => exact cfgWF_nil
+      | complete a so b hso hsel hb he ha => exact cfgWF_nil
+      | accept pfx id m bo hg hna hn he hso hb => exact cfgWF_nil
 
 theorem run_inv_cfgOK {s : State} (ops : List Op) (hI : Inv s) (hC : CfgOK s) :
     Inv (run s ops) ∧ CfgOK (run s ops) := by
@@ -309,5 +318,50 @@ theorem run_inv_cfgOK {s : State} (ops : List Op) (hI : Inv s) (hC : CfgOK s) :
       | ok s' => exact exec_cfgOK hI hC h
       | error e => exact hC
     exact ih hI' hC'
+
+
+/-- **the host-chain fallback stage is sound**: a fallback candidate on the host chain, queried with a
+    host-format address, resolves back to it -/
+theorem revByFallback_host_sound {s : State} {addr : Addr} {p : Path} {n : Name}
+    (hC : ∀ d, getNameLive s n = some d → CfgWF d.configs)
+    (hH : handleChain s (prettyChain s 0) = some 0)
+    (hP : ∀ c, prettyChain s 0 = .chain c → c = 0)
+    (hfmt : addr.hrp = 0)
+    (h : (p, n) ∈ revByFallback s addr) : resolve s p n (prettyChain s 0) = some addr := by
+  obtain ⟨rfl, d, hl, c, hc, hd, hacct⟩ := of_mem_revByFallback h
+  have hw := hC d hl
+  have hU : CfgUniq d := cfgUniq_of_nodup hw.1
+  have hid : c.chain = 0 ∧ c.path = 0 := by simpa [Config.isDefault] using hd
+  -- what the default lookup yields
+  have key : (match findConfig d 0 0 with | some v => some v | none => some (hostAddr d.owner)) = some addr := by
+    unfold DymName.revConfigs at hc
+    split at hc
+    · have hf := findConfig_of_mem hU hc
+      rw [hid.1, hid.2] at hf
+      have hh := hw.2 c hc hid.1
+      simp only [hf]
+      cases hv : c.value; cases addr; simp_all
+    · rename_i hnd
+      rcases List.mem_append.mp hc with hc | hc
+      · have := List.any_eq_false.mp (by simpa using hnd) c hc
+        rw [hd] at this; exact absurd rfl this
+      · simp only [List.mem_singleton] at hc
+        subst hc
+        simp only [findConfig_none_of_no_default (by simpa using hnd)]
+        cases addr; simp_all [hostAddr]
+  unfold resolve
+  simp only [hl]
+  cases hh : prettyChain s 0 with
+  | chain c' =>
+    have := hP c' hh; subst this
+    rw [hh] at hH
+    cases hf : findConfig d 0 0 with
+    | some v => simpa [hf] using key
+    | none => simpa [hf, hH] using key
+  | alias l =>
+    rw [hh] at hH
+    cases hf : findConfig d 0 0 with
+    | some v => simpa [hf, hH] using key
+    | none => simpa [hf, hH] using key
 
 end DymVerif.DymNS
